@@ -59,14 +59,17 @@ def templates(tier, seed):
         add(f't2:{pos1[0]}{pos2[0]}:revb{int(rev_b)}:reva{int(rev_a)}:sfx{int(sfx)}', cfg, st)
 
     # ---- T3: opcode endianness / sizes that are not whole bytes / wide fields --------------------------------
-    for osz, oen in ((12, 'little'), (16, 'little'), (16, 'big'), (3, 'big'), (20, 'little'), (8, 'little')):
+    for osz, oen, ssz, ien in ((12, 'little', 4, 'big'), (16, 'little', 4, 'big'), (16, 'big', 4, 'big'), (3, 'big', 4, 'big'),
+                               (20, 'little', 4, 'big'), (8, 'little', 4, 'big'),
+                               # a suffix wider than a byte follows the instruction's byte order, not the ISA default
+                               (8, 'little', 16, 'big'), (8, 'big', 16, 'little'), (12, 'little', 12, 'big'), (16, 'big', 24, 'little')):
         bc = code('op', osz)
         bc['endian'] = oen
-        bc['suffix'] = code('sfx', 4)
-        cfg = isa(operand_sets={'imm': {'operand_values': {'n': {'type': 'numeric', 'argument': arg(16, False, 'little')}}}},
+        bc['suffix'] = code('sfx', ssz)
+        cfg = isa(general={'endian': ien}, operand_sets={'imm': {'operand_values': {'n': {'type': 'numeric', 'argument': arg(16, False, 'little')}}}},
                   instructions={'w': {'bytecode': bc, 'operands': {'count': 1, 'operand_sets': {'list': ['imm']}}}},
                   consts={'v1': vrange(16)})
-        add(f't3:opcode{osz}{oen[0]}', cfg, {'mnemonic': 'w', 'text': 'w v1 + 1', 'uses': [
+        add(f't3:opcode{osz}{oen[0]}' + ('' if ssz == 4 else f':sfx{ssz}:isa-{ien[0]}'), cfg, {'mnemonic': 'w', 'text': 'w v1 + 1', 'uses': [
             {'set': 'imm', 'id': 'n', 'val': ('+', V('v1'), ('c', 1))}]})
 
     # ---- T4: indirect register (with +/- offset), indirect numeric, deferred numeric ---------------------------
@@ -417,7 +420,7 @@ def random_isa(rnd, idx):
     if rnd.random() < 0.3:
         bc['endian'] = rnd.choice(['big', 'little'])
     if rnd.random() < 0.3:
-        bc['suffix'] = code('sfx', rnd.randint(1, 8))
+        bc['suffix'] = code('sfx', rnd.choice([1, 2, 3, 4, 5, 6, 7, 8, 12, 16]))
     ins = {'bytecode': bc}
     if n_ops:
         ops = {'count': n_ops, 'operand_sets': {'list': [f'set{k}' for k in range(1, n_ops + 1)]}}
